@@ -104,8 +104,15 @@ def body(data, hist):
     P = max(w.prs)
     kind = pick(('wait', 'wait_slash', 'dep_open', 'dep_open', 'dep_declined',
                  'dep_merged', 'dep_unknown', 'dep_nonnumeric', 'dep_two',
-                 'dep_two', 'dep_two_one_comment', 'dep_merged_then_open'),
+                 'dep_two', 'dep_two_one_comment', 'dep_merged_then_open',
+                 'dep_partial', 'dep_partial', 'dep_partial'),
                 'hold')
+    partial = kind == 'dep_partial'
+    if partial:
+        # the dependency goes through the queue, but its author pushed one
+        # more commit after it was queued: the queue merge leaves it OPEN
+        # (partially merged) - still a dependency that is not merged
+        kind = 'dep_open'
     deps = []
     if kind.startswith('dep_') and kind not in ('dep_unknown',
                                                 'dep_nonnumeric'):
@@ -119,6 +126,14 @@ def body(data, hist):
             approve_all(hist, D)
             if kind == 'dep_declined':
                 hist.apply({'op': 'decline', 'pr': D, 'user': AUTHOR2})
+            elif partial and w.mode != 'noqueue':
+                ms = merge_steps(hist, D)
+                for s in ms[:4]:
+                    hist.apply(s)
+                hist.apply({'op': 'push_src', 'pr': D, 'kind': 'add'})
+                for s in ms[4:]:
+                    hist.apply(s)
+                hist.flags.add('c12_dependency_partially_merged')
             elif kind == 'dep_merged' or (kind == 'dep_merged_then_open'
                                           and i == 1):
                 # (dep_merged_then_open: the LAST listed dependency is
@@ -158,8 +173,13 @@ def body(data, hist):
     # same point (first round may only create the integration branches)
     rnd = [{'op': 'report_pr', 'pr': P, 'state': 'SUCCESSFUL'},
            {'op': 'pr_event', 'pr': P}]
-    hist.apply({'op': 'probe_path', 'slot': 'never_held', 'pr': P,
-                'steps': lift + rnd + rnd + rnd})
+    # (the never-held twin restarts the robot when its snapshot is restored;
+    # the partially-merged-dependency variant is about what a long-lived
+    # instance remembers, so it is judged by the hold monitor alone)
+    long_lived = 'c12_dependency_partially_merged' in hist.flags
+    if not long_lived:
+        hist.apply({'op': 'probe_path', 'slot': 'never_held', 'pr': P,
+                    'steps': lift + rnd + rnd + rnd})
     # the hold is a property of the pull request, whoever wrote the comment
     holder = pick((AUTHOR, AUTHOR, PEER1, ADMIN, ROBOT, ROBOT), 'holder')
     hist.flags.add('c12_hold_by_' + ('robot_account' if holder == ROBOT
@@ -167,8 +187,12 @@ def body(data, hist):
     for t in texts:
         hist.apply({'op': 'comment', 'pr': P, 'user': holder, 'text': t})
     n = data.draw(st.integers(2, 5), label='nheld')
-    for _ in range(n):
+    for it_ in range(n):
         k = data.draw(st.integers(0, 5), label='held_op')
+        if long_lived:
+            # green builds and evaluations on the same long-lived instance
+            # (no restart: what the instance remembers is the point)
+            k = 4 if it_ < 2 or k == 5 else k
         if k <= 1:
             hist.apply({'op': 'pr_event', 'pr': P})
         elif k == 2:
@@ -214,8 +238,12 @@ def body(data, hist):
     for s in rnd + rnd:
         hist.apply(s)
     hist.apply({'op': 'report_pr', 'pr': P, 'state': 'SUCCESSFUL'})
-    hist.apply({'op': 'compare_probe', 'slot': 'never_held', 'tag': 'C12',
-                'pr': P, 'final': {'op': 'pr_event', 'pr': P}})
+    if long_lived:
+        hist.apply({'op': 'pr_event', 'pr': P})
+    else:
+        hist.apply({'op': 'compare_probe', 'slot': 'never_held',
+                    'tag': 'C12', 'pr': P,
+                    'final': {'op': 'pr_event', 'pr': P}})
     hist.flags.add('c12_lift_' + kind)
 
 
